@@ -64,7 +64,7 @@ theorem reload_after_failed_provision_keeps_host :
 /-- the same at the level of the harness schedule `sched 1 L:0:…;B:0;L:0:…` (the former witness
     line, now corpus/C09/regression.txt): the configuration loaded after the rejected one keeps key 0
     and gets the same Host object 0 -/
-def wSched : List SStep := [.load [0] pA, .badLoad [0], .load [0] pA]
+def wSched : List SStep := [.load [0] pA [], .badLoad [0], .load [0] pA []]
 
 def runSteps (d : DState) : List SStep → Option DState
   | [] => some d
@@ -80,7 +80,7 @@ theorem sched_reload_after_failed_provision_keeps_host :
 /-- in-flight clause across such a reload: the request of the old configuration is visible to the
     new one (same Host object) -/
 theorem inflight_shared_after_failed_provision :
-    (runSteps dinit [.load [0] pA, .newReq true, .badLoad [0], .load [0] pA]).map
+    (runSteps dinit [.load [0] pA [], .newReq true, .badLoad [0], .load [0] pA []]).map
       (fun d => (d.s.inflight 0, d.s.nextHost, d.s.cfgs.map (·.ups))) = some (1, 1, [[(0, 0)], [], [(0, 0)]]) := by decide
 
 end CaddyModel.C09
